@@ -55,7 +55,11 @@ Scheduler (g.sched, class Scheduler)
               "error"           not executed, answered with RemoteException(IntentionalError)
               "error_after"     executed, answered with an error
               "delay"           executed in turn, answer withheld until nothing
-                                else can run (delay-until-others-done)
+                                else can run (delay-until-others-done); with
+                                "until": "timers" the answer is withheld even
+                                longer: until every pending short timer has been
+                                fired too (a slow, not hung, server: it answers
+                                after the client's OVERDUE/timeout timers)
               "corrupt"         executed, answer altered: "how": "flip" (xor
                                 byte at "offset" with "xor", default 0/1),
                                 "truncate" ("length"), "empty", "drop_share"
@@ -346,10 +350,20 @@ class Scheduler(object):
                 return True
         return False
 
-    def deliver_delayed(self):
-        if not self.delayed:
+    def deliver_delayed(self, after_timers=False):
+        """One withheld answer.  Plans with "until": "timers" (a SLOW server: the
+        answer arrives only after every pending short timer, e.g. the share
+        finder's OVERDUE timer, has fired) are delivered only when
+        after_timers is true."""
+        pick = None
+        for c in self.delayed:
+            if after_timers or (c.plan or {}).get("until") != "timers":
+                pick = c
+                break
+        if pick is None:
             return False
-        call = self.delayed.pop(0)
+        self.delayed.remove(pick)
+        call = pick
         call.state = "delayed-release"
         self.trace.append((call.seq, call.client, call.server, call.method, call.shnum, "deliver-delayed"))
         self._answer(call)
@@ -725,6 +739,8 @@ class Grid(object):
             if self.sched.deliver_delayed():
                 continue
             if self._warp():
+                continue
+            if self.sched.deliver_delayed(after_timers=True):
                 continue
             if self.idle_grace:
                 if idle_since is None:
